@@ -123,9 +123,9 @@ theorem cmp_ok_iff {O : List String} {x y : String} {d : Int} :
     | none => simp
     | some j => simp [eq_comm]
 
-/-- `cmp` / `in_order` raise `KeyError` (and nothing else) exactly when one of the variables is not in the ordering -/
+/-- `cmp` / `in_order` raise `RuntimeError` (and nothing else) exactly when one of the variables is not in the ordering -/
 theorem cmp_error_iff {O : List String} {x y : String} {e : Err} :
-    cmp O x y = .error e ↔ (x ∉ O ∨ y ∉ O) ∧ e = .keyError := by
+    cmp O x y = .error e ↔ (x ∉ O ∨ y ∉ O) ∧ e = .runtimeError := by
   unfold cmp
   cases hx : position O x with
   | none => simp [position_eq_none_iff.mp hx, eq_comm]
@@ -161,7 +161,7 @@ theorem inOrder_ok_iff {O : List String} {x y : String} {b : Bool} :
       simp
 
 theorem inOrder_error_iff {O : List String} {x y : String} {e : Err} :
-    inOrder O x y = .error e ↔ (x ∉ O ∨ y ∉ O) ∧ e = .keyError := by
+    inOrder O x y = .error e ↔ (x ∉ O ∨ y ∉ O) ∧ e = .runtimeError := by
   unfold inOrder
   cases h : cmp O x y with
   | error e' => rw [← cmp_error_iff, h]; simp [Except.map]
@@ -320,7 +320,7 @@ theorem edgeOk_ok_iff {O : List String} {v : String} {i : Nat} (hv : position O 
       by_cases h : i < j <;> simp_all
 
 theorem edgeOk_error_iff {O : List String} {v : String} (hv : v ∈ O) (c : NBDD) (e : Err) :
-    edgeOk O v c = .error e ↔ ¬ rootIn O c ∧ e = .keyError := by
+    edgeOk O v c = .error e ↔ ¬ rootIn O c ∧ e = .runtimeError := by
   cases c with
   | leaf x => simp [edgeOk, rootIn]
   | node w lo hi => simp [edgeOk, rootIn, inOrder_error_iff, hv]
@@ -473,98 +473,6 @@ theorem respect_false_not_ord (O : List String) (t : NBDD) (h : respect O t = .o
                   exact ihl h ((ord_child lo rlo).mp hl).2
     · simp [hv] at h
 
-/-- **the exceptions of `respect_ordering`**: `RuntimeError` exactly when the *root* variable is not in the ordering;
-    the only other exception is `KeyError`, raised (by `in_order`) for a variable below the root that is not in the
-    ordering -/
-theorem respect_error (O : List String) (t : NBDD) (e : Err) (h : respect O t = .error e) :
-    (e = .runtimeError ∧ ¬ rootIn O t) ∨ (e = .keyError ∧ rootIn O t ∧ ∃ v ∈ t.vars, v ∉ O) := by
-  induction t with
-  | leaf b => simp [respect] at h
-  | node v lo hi ihl ihh =>
-    unfold respect at h
-    by_cases hv : contains O v = true
-    · have hvm := contains_iff.mp hv
-      simp only [hv, Bool.not_true, Bool.false_eq_true, if_false] at h
-      right
-      have sub_lo : ∀ w ∈ lo.vars, w ∈ (node v lo hi).vars := fun w hw => by simp [vars, hw]
-      have sub_hi : ∀ w ∈ hi.vars, w ∈ (node v lo hi).vars := fun w hw => by simp [vars, hw]
-      have root_var : ∀ c : NBDD, ¬ rootIn O c → ∃ w ∈ c.vars, w ∉ O := by
-        intro c hc
-        cases c with
-        | leaf _ => exact absurd trivial hc
-        | node w _ _ => exact ⟨w, by simp [vars], hc⟩
-      have sub : ∀ c : NBDD, (∀ w ∈ c.vars, w ∈ (node v lo hi).vars) → ∀ e', respect O c = .error e' →
-          (e' = .runtimeError ∧ ¬ rootIn O c) ∨ (e' = .keyError ∧ rootIn O c ∧ ∃ v ∈ c.vars, v ∉ O) →
-          rootIn O c → e' = .keyError ∧ ∃ w ∈ (node v lo hi).vars, w ∉ O := by
-        intro c hsub e' _ hcase hroot
-        rcases hcase with ⟨_, hn⟩ | ⟨he, _, w, hw, hwn⟩
-        · exact absurd hroot hn
-        · exact ⟨he, w, hsub w hw, hwn⟩
-      cases e1 : edgeOk O v lo with
-      | error e' =>
-        simp only [e1, Except.error.injEq] at h; subst h
-        obtain ⟨hn, rfl⟩ := (edgeOk_error_iff hvm lo e').mp e1
-        obtain ⟨w, hw, hwn⟩ := root_var lo hn
-        exact ⟨rfl, hvm, w, sub_lo w hw, hwn⟩
-      | ok b1 =>
-        cases b1 with
-        | false => simp [e1] at h
-        | true =>
-          cases e2 : edgeOk O v hi with
-          | error e' =>
-            simp only [e1, e2, Except.error.injEq] at h; subst h
-            obtain ⟨hn, rfl⟩ := (edgeOk_error_iff hvm hi e').mp e2
-            obtain ⟨w, hw, hwn⟩ := root_var hi hn
-            exact ⟨rfl, hvm, w, sub_hi w hw, hwn⟩
-          | ok b2 =>
-            obtain ⟨i, hi'⟩ := mem_iff_position.mp hvm
-            have rlo := ((edgeOk_ok_iff hi' lo _).mp e1).1
-            have rhi := ((edgeOk_ok_iff hi' hi _).mp e2).1
-            cases b2 with
-            | false => simp [e1, e2] at h
-            | true =>
-              cases r1 : respect O hi with
-              | error e' =>
-                simp only [e1, e2, r1, Except.error.injEq] at h; subst h
-                obtain ⟨he, w, hw, hwn⟩ := sub hi sub_hi e' r1 (ihh r1) rhi
-                exact ⟨he, hvm, w, hw, hwn⟩
-              | ok b3 =>
-                cases b3 with
-                | false => simp [e1, e2, r1] at h
-                | true =>
-                  simp only [e1, e2, r1] at h
-                  obtain ⟨he, w, hw, hwn⟩ := sub lo sub_lo e h (ihl h) rlo
-                  exact ⟨he, hvm, w, hw, hwn⟩
-    · left
-      simp only [hv, Bool.not_false, if_true, Except.error.injEq] at h
-      exact ⟨h.symm, fun hm => hv (contains_iff.mpr hm)⟩
-
-theorem respect_runtimeError_iff (O : List String) (t : NBDD) :
-    respect O t = .error .runtimeError ↔ ¬ rootIn O t := by
-  constructor
-  · intro h
-    rcases respect_error O t _ h with ⟨_, hn⟩ | ⟨he, _⟩
-    · exact hn
-    · cases he
-  · intro hn
-    cases t with
-    | leaf b => exact absurd trivial hn
-    | node v lo hi =>
-      have : contains O v = false := by rw [← Bool.not_eq_true, contains_iff]; exact hn
-      simp [respect, this]
-
-/-- every outcome other than `True` / `False` needs a variable outside the ordering -/
-theorem respect_error_iff_exists (O : List String) (t : NBDD) :
-    (∃ e, respect O t = .error e) → ∃ v ∈ t.vars, v ∉ O := by
-  rintro ⟨e, h⟩
-  rcases respect_error O t e h with ⟨_, hn⟩ | ⟨_, _, hw⟩
-  · cases t with
-    | leaf b => exact absurd trivial hn
-    | node v lo hi => exact ⟨v, by simp [vars], hn⟩
-  · exact hw
-
-/-! ### the `checked` memo set is transparent -/
-
 theorem respect_node (O : List String) (v : String) (lo hi : NBDD) :
     respect O (node v lo hi) =
       if !Ordering.contains O v then .error .runtimeError else
@@ -582,6 +490,234 @@ theorem respect_node (O : List String) (v : String) (lo hi : NBDD) :
           | .ok true => respect O lo := by
   conv_lhs => unfold respect
   rfl
+
+/-! ### the outcome of `respect_ordering` is decided by the first defect in traversal order -/
+
+/-- what the traversal can stumble on -/
+inductive Defect where
+  /-- the variable `w`, which is not in the ordering, is looked at (`self.var not in O`, or `O.cmp(self.var, w)`) -/
+  | foreign (w : String)
+  /-- the edge from `v` to its child `w`, both in the ordering, does not go forward (`not O.in_order(v, w)`) -/
+  | backward (v w : String)
+  deriving DecidableEq, Repr
+
+/-- the test on the edge from a node labelled `v` to one child -/
+def edgeDefects (O : List String) (v : String) : NBDD → List Defect
+  | leaf _ => []
+  | node w _ _ =>
+    if w ∉ O then [.foreign w] else if v ∈ O ∧ ltKey O v w = false then [.backward v w] else []
+
+/-- ALL the defects of a diagram, in the order in which `respect_ordering` looks for them: the node's own variable,
+    the edge to `low`, the edge to `high`, then the subdiagram `high`, then the subdiagram `low` -/
+def defects (O : List String) : NBDD → List Defect
+  | leaf _ => []
+  | node v lo hi =>
+    (if v ∈ O then [] else [.foreign v]) ++ (edgeDefects O v lo ++ (edgeDefects O v hi ++ (defects O hi ++ defects O lo)))
+
+/-- what the first defect (if any) makes of the call -/
+def Defect.outcome : Option Defect → Except Err Bool
+  | none => .ok true
+  | some (.foreign _) => .error .runtimeError
+  | some (.backward _ _) => .ok false
+
+/-- `a and b` on outcomes -/
+def andThen (r k : Except Err Bool) : Except Err Bool :=
+  match r with
+  | .error e => .error e
+  | .ok false => .ok false
+  | .ok true => k
+
+theorem respect_node' (O : List String) (v : String) (lo hi : NBDD) :
+    respect O (node v lo hi) =
+      if !Ordering.contains O v then .error .runtimeError else
+      andThen (edgeOk O v lo) (andThen (edgeOk O v hi) (andThen (respect O hi) (respect O lo))) := by
+  rw [respect_node]; rfl
+
+theorem outcome_append (l1 l2 : List Defect) :
+    Defect.outcome (l1 ++ l2).head? = andThen (Defect.outcome l1.head?) (Defect.outcome l2.head?) := by
+  cases l1 with
+  | nil => rfl
+  | cons d r => cases d <;> rfl
+
+theorem edgeOk_eq_outcome {O : List String} {v : String} (hv : v ∈ O) (c : NBDD) :
+    edgeOk O v c = Defect.outcome (edgeDefects O v c).head? := by
+  cases c with
+  | leaf b => rfl
+  | node w lo hi =>
+    simp only [edgeOk, edgeDefects]
+    by_cases hw : w ∈ O
+    · obtain ⟨i, hi'⟩ := mem_iff_position.mp hv
+      obtain ⟨j, hj⟩ := mem_iff_position.mp hw
+      have h1 : inOrder O v w = .ok (decide (i < j)) := inOrder_ok_iff.mpr ⟨i, j, hi', hj, rfl⟩
+      by_cases hlt : i < j
+      · have : ltKey O v w = true := ltKey_iff.mpr ⟨i, j, hi', hj, hlt⟩
+        simp [h1, hlt, hw, this, Defect.outcome]
+      · have : ltKey O v w = false := by
+          rw [← Bool.not_eq_true, ltKey_iff]
+          rintro ⟨i', j', h2, h3, h4⟩
+          rw [hi'] at h2; rw [hj] at h3; cases h2; cases h3; exact hlt h4
+        simp [h1, hlt, hw, hv, this, Defect.outcome]
+    · have : inOrder O v w = .error .runtimeError := inOrder_error_iff.mpr ⟨Or.inr hw, rfl⟩
+      simp [this, hw, Defect.outcome]
+
+/-- **`respect_ordering(O)` in one formula**: `True` when the diagram has no defect; otherwise the FIRST defect in
+    traversal order decides: `RuntimeError` when it is a variable outside the ordering, `False` when it is an edge
+    that does not go forward -/
+theorem respect_eq_outcome (O : List String) (t : NBDD) : respect O t = Defect.outcome (defects O t).head? := by
+  induction t with
+  | leaf b => rfl
+  | node v lo hi ihl ihh =>
+    rw [respect_node']
+    by_cases hv : v ∈ O
+    · have hc := contains_iff.mpr hv
+      simp only [hc, Bool.not_true, Bool.false_eq_true, if_false]
+      rw [edgeOk_eq_outcome hv lo, edgeOk_eq_outcome hv hi, ihl, ihh]
+      simp only [defects, hv, if_true, List.nil_append, outcome_append]
+    · have hc : contains O v = false := by rw [← Bool.not_eq_true, contains_iff]; exact hv
+      simp [hc, defects, hv, Defect.outcome]
+
+/-- a `foreign` defect is a variable of the diagram that is not in the ordering … -/
+theorem foreign_mem_defects {O : List String} {t : NBDD} {w : String} (h : Defect.foreign w ∈ defects O t) :
+    w ∈ t.vars ∧ w ∉ O := by
+  induction t with
+  | leaf b => simp [defects] at h
+  | node v lo hi ihl ihh =>
+    have edge : ∀ c : NBDD, Defect.foreign w ∈ edgeDefects O v c → w ∈ c.vars ∧ w ∉ O := by
+      intro c hc
+      cases c with
+      | leaf b => simp [edgeDefects] at hc
+      | node u l r =>
+        simp only [edgeDefects] at hc
+        split_ifs at hc with h1 h2
+        · simp at hc
+        · simp at hc
+        · simp only [List.mem_singleton, Defect.foreign.injEq] at hc; subst hc; exact ⟨by simp [vars], h1⟩
+    simp only [defects, List.mem_append] at h
+    rcases h with h | h | h | h | h
+    · split_ifs at h with hv
+      · simp at h
+      · simp only [List.mem_singleton, Defect.foreign.injEq] at h; subst h; exact ⟨by simp [vars], hv⟩
+    · obtain ⟨h1, h2⟩ := edge lo h; exact ⟨by simp [vars, h1], h2⟩
+    · obtain ⟨h1, h2⟩ := edge hi h; exact ⟨by simp [vars, h1], h2⟩
+    · obtain ⟨h1, h2⟩ := ihh h; exact ⟨by simp [vars, h1], h2⟩
+    · obtain ⟨h1, h2⟩ := ihl h; exact ⟨by simp [vars, h1], h2⟩
+
+/-- … and every variable of the diagram that is not in the ordering is one -/
+theorem foreign_defect_of_var {O : List String} {t : NBDD} {w : String} (hw : w ∈ t.vars) (hO : w ∉ O) :
+    Defect.foreign w ∈ defects O t := by
+  induction t with
+  | leaf b => simp [vars] at hw
+  | node v lo hi ihl ihh =>
+    simp only [vars, List.mem_cons, List.mem_append] at hw
+    simp only [defects, List.mem_append]
+    rcases hw with rfl | hw | hw
+    · left; simp [hO]
+    · exact Or.inr (Or.inr (Or.inr (Or.inr (ihl hw))))
+    · exact Or.inr (Or.inr (Or.inr (Or.inl (ihh hw))))
+
+/-- a `backward` defect is an edge between two variables of the ordering that does not go forward -/
+theorem backward_mem_defects {O : List String} {t : NBDD} {v w : String} (h : Defect.backward v w ∈ defects O t) :
+    v ∈ t.vars ∧ w ∈ t.vars ∧
+      ∃ i j, position O v = some i ∧ position O w = some j ∧ j ≤ i := by
+  induction t with
+  | leaf b => simp [defects] at h
+  | node u lo hi ihl ihh =>
+    have edge : ∀ c : NBDD, Defect.backward v w ∈ edgeDefects O u c →
+        v = u ∧ w ∈ c.vars ∧ ∃ i j, position O v = some i ∧ position O w = some j ∧ j ≤ i := by
+      intro c hc
+      cases c with
+      | leaf b => simp [edgeDefects] at hc
+      | node x l r =>
+        simp only [edgeDefects] at hc
+        split_ifs at hc with h1 h2
+        · simp only [List.mem_singleton, Defect.backward.injEq] at hc
+          obtain ⟨rfl, rfl⟩ := hc
+          obtain ⟨i, hi'⟩ := mem_iff_position.mp h2.1
+          obtain ⟨j, hj⟩ := mem_iff_position.mp h1
+          refine ⟨rfl, by simp [vars], i, j, hi', hj, ?_⟩
+          by_contra hlt
+          have := ltKey_iff.mpr ⟨i, j, hi', hj, by omega⟩
+          rw [h2.2] at this; cases this
+        · simp at hc
+        · simp at hc
+    simp only [defects, List.mem_append] at h
+    rcases h with h | h | h | h | h
+    · split_ifs at h <;> simp at h
+    · obtain ⟨rfl, h2, h3⟩ := edge lo h; exact ⟨by simp [vars], by simp [vars, h2], h3⟩
+    · obtain ⟨rfl, h2, h3⟩ := edge hi h; exact ⟨by simp [vars], by simp [vars, h2], h3⟩
+    · obtain ⟨h1, h2, h3⟩ := ihh h; exact ⟨by simp [vars, h1], by simp [vars, h2], h3⟩
+    · obtain ⟨h1, h2, h3⟩ := ihl h; exact ⟨by simp [vars, h1], by simp [vars, h2], h3⟩
+
+theorem outcome_ok_true_iff (d : Option Defect) : Defect.outcome d = .ok true ↔ d = none := by
+  cases d with
+  | none => simp [Defect.outcome]
+  | some x => cases x <;> simp [Defect.outcome]
+
+/-- a diagram has no defect exactly when all its variables are in the ordering and it is ordered -/
+theorem defects_eq_nil_iff (O : List String) (t : NBDD) :
+    defects O t = [] ↔ (∀ v ∈ t.vars, v ∈ O) ∧ Ord 0 (toPos O t) := by
+  rw [← respect_true_iff, respect_eq_outcome, outcome_ok_true_iff, List.head?_eq_none_iff]
+
+/-- **the exceptions of `respect_ordering`**: the only exception class is `RuntimeError`, and it needs a variable of
+    the diagram that is not in the ordering -/
+theorem respect_error (O : List String) (t : NBDD) (e : Err) (h : respect O t = .error e) :
+    e = .runtimeError ∧ ∃ v ∈ t.vars, v ∉ O := by
+  rw [respect_eq_outcome] at h
+  cases hd : (defects O t).head? with
+  | none => rw [hd] at h; cases h
+  | some d =>
+    rw [hd] at h
+    cases d with
+    | foreign w =>
+      simp only [Defect.outcome, Except.error.injEq] at h
+      have := foreign_mem_defects (List.mem_of_mem_head? (Option.mem_def.mpr hd))
+      exact ⟨h.symm, w, this⟩
+    | backward v w => cases h
+
+/-- **`RuntimeError` exactly when the traversal looks at a variable outside the ordering before it finds an edge that
+    does not go forward**, that is when the first defect is a `foreign` one -/
+theorem respect_runtimeError_iff (O : List String) (t : NBDD) :
+    respect O t = .error .runtimeError ↔ ∃ w, (defects O t).head? = some (.foreign w) := by
+  rw [respect_eq_outcome]
+  cases (defects O t).head? with
+  | none => simp [Defect.outcome]
+  | some d => cases d <;> simp [Defect.outcome]
+
+/-- `False` exactly when the first defect is an edge that does not go forward (whatever comes after it) -/
+theorem respect_false_iff (O : List String) (t : NBDD) :
+    respect O t = .ok false ↔ ∃ v w, (defects O t).head? = some (.backward v w) := by
+  rw [respect_eq_outcome]
+  cases (defects O t).head? with
+  | none => simp [Defect.outcome]
+  | some d => cases d <;> simp [Defect.outcome]
+
+/-- a root variable outside the ordering is always the first defect -/
+theorem respect_root_runtimeError (O : List String) (t : NBDD) (hn : ¬ rootIn O t) :
+    respect O t = .error .runtimeError := by
+  cases t with
+  | leaf b => exact absurd trivial hn
+  | node v lo hi =>
+    have : contains O v = false := by rw [← Bool.not_eq_true, contains_iff]; exact hn
+    simp [respect, this]
+
+/-- every outcome other than `True` / `False` needs a variable outside the ordering -/
+theorem respect_error_iff_exists (O : List String) (t : NBDD) :
+    (∃ e, respect O t = .error e) → ∃ v ∈ t.vars, v ∉ O := by
+  rintro ⟨e, h⟩
+  exact (respect_error O t e h).2
+
+/-- a diagram that mentions a variable outside the ordering is never accepted: `RuntimeError`, or `False` when an
+    edge that does not go forward is met first -/
+theorem respect_foreign (O : List String) (t : NBDD) (h : ∃ v ∈ t.vars, v ∉ O) :
+    respect O t = .error .runtimeError ∨ respect O t = .ok false := by
+  obtain ⟨v, hv, hO⟩ := h
+  have hm := foreign_defect_of_var hv hO
+  rw [respect_eq_outcome]
+  cases hd : (defects O t).head? with
+  | none => rw [List.head?_eq_none_iff] at hd; rw [hd] at hm; cases hm
+  | some d => cases d <;> simp [Defect.outcome]
+
+/-! ### the `checked` memo set is transparent -/
 
 theorem respectM_spec (O : List String) (t : NBDD) : ∀ (ck : List NBDD), (∀ c ∈ ck, respect O c = .ok true) →
     match respectM O t ck with
@@ -653,7 +789,7 @@ end NBDD
 
 /-! ### `BDDNode(...)` -/
 
-/-- the values accepted for a terminal node: `0`, `1`, `False`, `True`, `0.0`, `1.0` -/
+/-- the values accepted for a terminal node: `0`, `1`, `False`, `True`, `0.0`, `1.0` (anything `==` to 0 or 1) -/
 theorem asBit_isSome_iff (v : PyVal) :
     v.asBit.isSome = true ↔ v = .int 0 ∨ v = .int 1 ∨ (∃ b, v = .bool b) ∨ v = .float 0 false ∨ v = .float 1 false := by
   cases v with
@@ -671,6 +807,23 @@ theorem terminal_ok_iff (v : PyVal) (t : NBDD) : terminal v = .ok t ↔ ∃ b, v
 theorem terminal_error_iff (v : PyVal) (e : Err) : terminal v = .error e ↔ v.asBit = none ∧ e = .typeError := by
   unfold terminal
   cases h : v.asBit <;> simp [eq_comm]
+
+/-- **a terminal node always holds a `bool`**: whatever accepted value it is requested with (`1`, `True`, `1.0`, …),
+    `BDDTerminalNode(v)` is the node of `bool(v)` and its `.value` is that `bool` -/
+theorem terminal_value_bool (v : PyVal) (t : NBDD) (h : terminal v = .ok t) :
+    ∃ b, v.asBit = some b ∧ t = .leaf b ∧ t.value = some (.bool b) := by
+  obtain ⟨b, hb, rfl⟩ := (terminal_ok_iff v t).mp h
+  exact ⟨b, hb, rfl, rfl⟩
+
+/-- `BDDNode(1.0)` / `BDDNode(0.0)` are accepted and denote the terminals 1 / 0 (holding `True` / `False`) -/
+theorem terminal_float :
+    terminal (.float 1 false) = .ok (.leaf true) ∧ terminal (.float 0 false) = .ok (.leaf false) ∧
+      (NBDD.leaf true).value = some (.bool true) ∧ (NBDD.leaf false).value = some (.bool false) := by
+  refine ⟨rfl, rfl, rfl, rfl⟩
+
+/-- only terminal nodes have a `.value` -/
+theorem value_isSome_iff (t : NBDD) : t.value.isSome = true ↔ ∃ b, t = .leaf b := by
+  cases t <;> simp [NBDD.value]
 
 theorem nonTerminal_ok_iff (x : String) (lo hi : PyVal) (t : NBDD) :
     nonTerminal x lo hi = .ok t ↔ ∃ l h, lo = .node l ∧ hi = .node h ∧ t = NBDD.mk x l h := by
@@ -955,13 +1108,15 @@ theorem init_node_valueError_iff (t : NBDD) (l : List String) :
     | error e =>
       simp only [Except.error.injEq, reduceCtorEq, iff_false]
       rintro rfl
-      rcases NBDD.respect_error l t _ hr with ⟨he, _⟩ | ⟨he, _⟩ <;> cases he
+      cases (NBDD.respect_error l t _ hr).1
     | ok b => cases b <;> simp
   · simp [h]
 
-/-- `RuntimeError`: exactly when the list repeats a variable or the *root* variable is not in it -/
+/-- `RuntimeError`: exactly when the list repeats a variable or `respect_ordering` raises it, that is (see
+    `NBDD.respect_runtimeError_iff`) when the first defect of the diagram is a variable that is not in the list -/
 theorem init_node_runtimeError_iff (t : NBDD) (l : List String) :
-    OBDDv.init (.val (.node t)) (.list l) true = .error .runtimeError ↔ ¬ l.Nodup ∨ ¬ NBDD.rootIn l t := by
+    OBDDv.init (.val (.node t)) (.list l) true = .error .runtimeError ↔
+      ¬ l.Nodup ∨ ∃ w, (NBDD.defects l t).head? = some (.foreign w) := by
   rw [init_node_list]
   by_cases h : l.Nodup
   · simp only [h, if_true, not_true_eq_false, false_or]
@@ -971,29 +1126,28 @@ theorem init_node_runtimeError_iff (t : NBDD) (l : List String) :
     | ok b => cases b <;> simp
   · simp [h]
 
-/-- **the defect**: a variable that is not in the ordering and sits *below* the root surfaces as `KeyError` -/
-theorem init_node_keyError_iff (t : NBDD) (l : List String) :
-    OBDDv.init (.val (.node t)) (.list l) true = .error .keyError ↔ l.Nodup ∧ NBDD.respect l t = .error .keyError := by
+/-- in particular a ROOT variable that is not in the list is a `RuntimeError` -/
+theorem init_node_root_runtimeError (t : NBDD) (l : List String) (h : ¬ NBDD.rootIn l t) :
+    OBDDv.init (.val (.node t)) (.list l) true = .error .runtimeError := by
   rw [init_node_list]
-  by_cases h : l.Nodup
-  · simp only [h, if_true, true_and]
-    cases hr : NBDD.respect l t with
-    | error e => simp
-    | ok b => cases b <;> simp
-  · simp [h]
+  by_cases hl : l.Nodup
+  · simp [hl, NBDD.respect_root_runtimeError l t h]
+  · simp [hl]
 
-theorem init_node_keyError (t : NBDD) (l : List String)
-    (h : OBDDv.init (.val (.node t)) (.list l) true = .error .keyError) :
-    NBDD.rootIn l t ∧ ∃ v ∈ t.vars, v ∉ l := by
-  obtain ⟨_, hr⟩ := (init_node_keyError_iff t l).mp h
-  rcases NBDD.respect_error l t _ hr with ⟨he, _⟩ | ⟨_, h1, h2⟩
-  · cases he
-  · exact ⟨h1, h2⟩
+/-- **a variable of the diagram that is not in the (duplicate-free) list**: `OBDD(node, list)` never succeeds and
+    raises `RuntimeError` — or `ValueError` when an edge that does not go forward is met first -/
+theorem init_node_foreign (t : NBDD) (l : List String) (hf : ∃ v ∈ t.vars, v ∉ l) :
+    OBDDv.init (.val (.node t)) (.list l) true = .error .runtimeError ∨
+      OBDDv.init (.val (.node t)) (.list l) true = .error .valueError := by
+  rw [init_node_list]
+  by_cases hl : l.Nodup
+  · rcases NBDD.respect_foreign l t hf with h | h <;> simp [hl, h]
+  · simp [hl]
 
 /-- no other exception class: `TypeError` in particular never arises for a `BDDNode` and a list of names -/
 theorem init_node_error_classes (t : NBDD) (l : List String) (check : Bool) (e : Err)
     (h : OBDDv.init (.val (.node t)) (.list l) check = .error e) :
-    e = .runtimeError ∨ e = .valueError ∨ e = .keyError := by
+    e = .runtimeError ∨ e = .valueError := by
   rw [init_node_list] at h
   by_cases hl : l.Nodup
   · simp only [hl, if_true] at h
@@ -1003,8 +1157,8 @@ theorem init_node_error_classes (t : NBDD) (l : List String) (check : Bool) (e :
       cases hr : NBDD.respect l t with
       | error e' =>
         simp only [hr, Except.error.injEq] at h; subst h
-        rcases NBDD.respect_error l t _ hr with ⟨he, _⟩ | ⟨he, _⟩ <;> simp [he]
-      | ok b => cases b <;> simp [hr] at h; exact Or.inr (Or.inl h.symm)
+        exact Or.inl (NBDD.respect_error l t _ hr).1
+      | ok b => cases b <;> simp [hr] at h; exact Or.inr h.symm
   · simp only [hl, if_false, Except.error.injEq] at h
     exact Or.inl h.symm
 
@@ -1176,6 +1330,21 @@ theorem eq_node (self : OBDDv) (O : List String) (hO : self.ordering = some O) (
     · rfl
     · simp [same, hO, ordEq, eqv_refl]
 
+/-- `obdd == node` with a variable of `node` outside the ordering of `obdd`: `RuntimeError`, or `ValueError` when an
+    edge that does not go forward is met first; no other exception class escapes from `obdd == node` -/
+theorem eq_node_error (self : OBDDv) (O : List String) (hO : self.ordering = some O) (t : NBDD) (e : Err)
+    (h : self.eq (.node t) = .error e) :
+    (e = .runtimeError ∧ ∃ v ∈ t.vars, v ∉ O) ∨ (e = .valueError ∧ NBDD.respect O t = .ok false) := by
+  rw [eq_node self O hO] at h
+  cases hr : NBDD.respect O t with
+  | error e' =>
+    simp only [hr, Except.error.injEq] at h; subst h
+    exact Or.inl (NBDD.respect_error O t _ hr)
+  | ok b =>
+    cases b
+    · simp only [hr, Except.error.injEq] at h; exact Or.inr ⟨h.symm, rfl⟩
+    · simp [hr] at h
+
 /-- `obdd == 0/1/False/True` compares the root with the terminal node -/
 theorem eq_bit (self : OBDDv) (O : List String) (hO : self.ordering = some O) (A : PyVal) (b : Bool)
     (hA : A.asBit = some b) : self.eq A = .ok (decide (self.root = .leaf b)) := by
@@ -1204,7 +1373,7 @@ theorem eq_typeError_iff (self : OBDDv) (O : List String) (hO : self.ordering = 
       cases hr : NBDD.respect O t with
       | error e =>
         simp only [hr, Except.error.injEq] at h; subst h
-        rcases NBDD.respect_error O t _ hr with ⟨he, _⟩ | ⟨he, _⟩ <;> cases he
+        cases (NBDD.respect_error O t _ hr).1
       | ok b => cases b <;> simp [hr] at h
     · rintro B rfl; simp [eq_obdd] at h
     · cases hb : A.asBit with
@@ -1234,7 +1403,7 @@ theorem restrict_typeError_iff (self : OBDDv) (O : List String) (hO : self.order
       simp only [selfArg, hO, init_node_ordering, if_true]
       cases hr : NBDD.respect O (self.root.restrict x b) with
       | error e =>
-        rcases NBDD.respect_error O _ _ hr with ⟨he, _⟩ | ⟨he, _⟩ <;> simp [he]
+        simp [(NBDD.respect_error O _ _ hr).1]
       | ok c => cases c <;> simp
     | _ => simp
 
@@ -1281,23 +1450,23 @@ end OBDDv
 /-! ### `apply` (`&`, `|`, `^`) -/
 
 /-- `TypeError` unless the right operand is an OBDD -/
-theorem apply_typeError (op bad : Bool → Bool → Bool) (self : OBDDv) (B : PyVal) (h : ∀ b, B ≠ .obdd b) :
-    OBDDv.apply op bad self B = .error .typeError := by
+theorem apply_typeError (op : Bool → Bool → Bool) (self : OBDDv) (B : PyVal) (h : ∀ b, B ≠ .obdd b) :
+    OBDDv.apply op self B = .error .typeError := by
   cases B <;> simp_all [OBDDv.apply]
 
 /-- **`RuntimeError` when the two orderings differ** (the guard of C17) -/
-theorem apply_runtimeError (op bad : Bool → Bool → Bool) (self b : OBDDv) (h1 : self.WF) (h2 : b.WF)
-    (h : self.ordering ≠ b.ordering) : OBDDv.apply op bad self (.obdd b) = .error .runtimeError := by
+theorem apply_runtimeError (op : Bool → Bool → Bool) (self b : OBDDv) (h1 : self.WF) (h2 : b.WF)
+    (h : self.ordering ≠ b.ordering) : OBDDv.apply op self (.obdd b) = .error .runtimeError := by
   have : OBDDv.ordEq self.ordering b.ordering = false := by
     rw [← Bool.not_eq_true, OBDDv.ordEq_iff h1 h2]; exact h
   simp [OBDDv.apply, this]
 
 /-- on diagrams whose variables are all in the ordering, the named `compute` never raises and is the positional
     `apply` of the base model (to which `C17.and_spec` … apply) -/
-theorem napply_spec (op bad : Bool → Bool → Bool) (hbad : ∀ x y, bad x y = false) (O : List String) :
+theorem napply_spec (op : Bool → Bool → Bool) (O : List String) :
     ∀ (n : Nat) (a b : NBDD),
     (∀ v ∈ a.vars, v ∈ O) → (∀ v ∈ b.vars, v ∈ O) →
-    ∃ t, NBDD.apply op bad (some O) n a b = .ok t ∧ NBDD.toPos O t = BDD.apply op n (NBDD.toPos O a) (NBDD.toPos O b) ∧
+    ∃ t, NBDD.apply op (some O) n a b = .ok t ∧ NBDD.toPos O t = BDD.apply op n (NBDD.toPos O a) (NBDD.toPos O b) ∧
       ∀ v ∈ t.vars, v ∈ O := by
   intro n
   induction n with
@@ -1307,7 +1476,7 @@ theorem napply_spec (op bad : Bool → Bool → Bool) (hbad : ∀ x y, bad x y =
     -- the common shape: two recursive calls and `mk`
     have sons : ∀ (v : String) (a0 b0 a1 b1 : NBDD), v ∈ O →
         (∀ u ∈ a0.vars, u ∈ O) → (∀ u ∈ b0.vars, u ∈ O) → (∀ u ∈ a1.vars, u ∈ O) → (∀ u ∈ b1.vars, u ∈ O) →
-        ∃ l h, NBDD.apply op bad (some O) n a0 b0 = .ok l ∧ NBDD.apply op bad (some O) n a1 b1 = .ok h ∧
+        ∃ l h, NBDD.apply op (some O) n a0 b0 = .ok l ∧ NBDD.apply op (some O) n a1 b1 = .ok h ∧
           NBDD.toPos O (NBDD.mk v l h) = BDD.mk ((position O v).getD O.length)
             (BDD.apply op n (NBDD.toPos O a0) (NBDD.toPos O b0)) (BDD.apply op n (NBDD.toPos O a1) (NBDD.toPos O b1)) ∧
           ∀ u ∈ (NBDD.mk v l h).vars, u ∈ O := by
@@ -1326,7 +1495,7 @@ theorem napply_spec (op bad : Bool → Bool → Bool) (hbad : ∀ x y, bad x y =
     cases a with
     | leaf x =>
       cases b with
-      | leaf y => exact ⟨.leaf (op x y), by simp [NBDD.apply, hbad], by simp [BDD.apply, NBDD.toPos], by simp [NBDD.vars]⟩
+      | leaf y => exact ⟨.leaf (op x y), by simp [NBDD.apply], by simp [BDD.apply, NBDD.toPos], by simp [NBDD.vars]⟩
       | node w lo hi =>
         have hw : w ∈ O := hb w (by simp [NBDD.vars])
         obtain ⟨l, h, el, eh, p, vt⟩ := sons w (.leaf x) lo (.leaf x) hi hw (by simp [NBDD.vars])
@@ -1371,14 +1540,14 @@ theorem nsize_toPos (O : List String) (t : NBDD) : BDD.size (NBDD.toPos O t) = t
 
 /-- `f & g`, `f | g`, `f ^ g` on two OBDDs with the same ordering whose roots respect it: never raises, and the root
     of the result is the positional `applyOp` of the two positional roots -/
-theorem apply_ok (op bad : Bool → Bool → Bool) (hbad : ∀ x y, bad x y = false) (self b : OBDDv) (O : List String)
+theorem apply_ok (op : Bool → Bool → Bool) (self b : OBDDv) (O : List String)
     (h1 : self.ordering = some O)
     (h2 : b.ordering = some O) (r1 : NBDD.respect O self.root = .ok true) (r2 : NBDD.respect O b.root = .ok true) :
-    ∃ t, OBDDv.apply op bad self (.obdd b) = .ok ⟨t, some O⟩ ∧
+    ∃ t, OBDDv.apply op self (.obdd b) = .ok ⟨t, some O⟩ ∧
       NBDD.toPos O t = applyOp op (NBDD.toPos O self.root) (NBDD.toPos O b.root) ∧ NBDD.respect O t = .ok true := by
   obtain ⟨v1, o1⟩ := (NBDD.respect_true_iff O _).mp r1
   obtain ⟨v2, o2⟩ := (NBDD.respect_true_iff O _).mp r2
-  obtain ⟨t, e, p, vt⟩ := napply_spec op bad hbad O (self.root.size + b.root.size) self.root b.root v1 v2
+  obtain ⟨t, e, p, vt⟩ := napply_spec op O (self.root.size + b.root.size) self.root b.root v1 v2
   refine ⟨t, ?_, ?_, ?_⟩
   · simp [OBDDv.apply, h1, h2, OBDDv.ordEq, eqv_refl, e]
   · rw [p, applyOp, nsize_toPos, nsize_toPos]
@@ -1421,30 +1590,118 @@ theorem eqPy_true_iff (O : List String) (hO : O.Nodup) (v : PyVal) (hv : ∀ P, 
   | ordering P => simp [Ordering.eqPy, eqv_iff hO (hv P rfl), eq_comm]
   | _ => simp [Ordering.eqPy]
 
-/-! ### the values held by the terminal nodes -/
+/-! ### the exception classes of `&`, `|`, `^` under a `ListOrdering` -/
 
-/-- as long as no terminal was first created with a `float`, no operator raises -/
-theorem xorBad_clean (a b : Bool) : TermVals.xorBad TermVals.clean a b = false := by
-  cases a <;> cases b <;> rfl
+/-- the named `compute` under a `ListOrdering` raises nothing but `RuntimeError` (from `Ordering.cmp`): the final
+    `raise RuntimeError('…' % A, B)` of `compute` — a `TypeError` — is unreachable, and the operator is applied to two
+    `bool`s -/
+theorem napply_error_class (op : Bool → Bool → Bool) (O : List String) :
+    ∀ (n : Nat) (a b : NBDD) (e : Err), NBDD.apply op (some O) n a b = .error e → e = .runtimeError := by
+  intro n
+  induction n with
+  | zero => intro a b e h; simp [NBDD.apply] at h
+  | succ n ih =>
+    intro a b e h
+    have sons : ∀ (v : String) (a0 b0 a1 b1 : NBDD),
+        (match NBDD.apply op (some O) n a0 b0 with
+          | .error x => Except.error x
+          | .ok l =>
+            match NBDD.apply op (some O) n a1 b1 with
+            | .error x => .error x
+            | .ok h => .ok (NBDD.mk v l h)) = .error e → e = .runtimeError := by
+      intro v a0 b0 a1 b1 hs
+      cases h0 : NBDD.apply op (some O) n a0 b0 with
+      | error x => rw [h0] at hs; cases hs; exact ih _ _ _ h0
+      | ok l =>
+        cases h1 : NBDD.apply op (some O) n a1 b1 with
+        | error x => rw [h0, h1] at hs; cases hs; exact ih _ _ _ h1
+        | ok r => rw [h0, h1] at hs; cases hs
+    cases a with
+    | leaf x =>
+      cases b with
+      | leaf y => simp [NBDD.apply] at h
+      | node w lo hi => simp only [NBDD.apply] at h; exact sons _ _ _ _ _ h
+    | node v lo1 hi1 =>
+      cases b with
+      | leaf y => simp only [NBDD.apply] at h; exact sons _ _ _ _ _ h
+      | node w lo2 hi2 =>
+        simp only [NBDD.apply, ordInOrder] at h
+        cases c1 : inOrder O v w with
+        | error x =>
+          rw [c1] at h; cases h
+          exact (inOrder_error_iff.mp c1).2
+        | ok b1 =>
+          rw [c1] at h
+          cases b1 with
+          | true => exact sons _ _ _ _ _ h
+          | false =>
+            simp only at h
+            split_ifs at h with c2
+            · exact sons _ _ _ _ _ h
+            · cases c3 : inOrder O w v with
+              | error x =>
+                rw [c3] at h; cases h
+                exact (inOrder_error_iff.mp c3).2
+              | ok b2 =>
+                rw [c3] at h
+                cases b2 with
+                | true => exact sons _ _ _ _ _ h
+                | false =>
+                  exfalso
+                  obtain ⟨i, j, hi, hj, hd⟩ := inOrder_ok_iff.mp c1
+                  obtain ⟨j', i', hj', hi', hd'⟩ := inOrder_ok_iff.mp c3
+                  rw [hi] at hi'; rw [hj] at hj'; cases hi'; cases hj'
+                  have e1 : ¬ i < j := by simpa using hd.symm
+                  have e2 : ¬ j < i := by simpa using hd'.symm
+                  have : i = j := by omega
+                  subst this
+                  exact c2 (position_inj hi hj)
 
-theorem xorBad_false_iff (T : TermVals) : (∀ a b, T.xorBad a b = false) ↔ T.isFloat false = false ∧ T.isFloat true = false := by
-  constructor
-  · intro h
-    exact ⟨by simpa [TermVals.xorBad] using h false false, by simpa [TermVals.xorBad] using h true true⟩
-  · rintro ⟨h0, h1⟩ a b
-    cases a <;> cases b <;> simp [TermVals.xorBad, h0, h1]
+/-- **the exceptions of `f & g`, `f | g`, `f ^ g` on two OBDDs when the left one holds a `ListOrdering`**: the only
+    class is `RuntimeError`, raised because the orderings differ or because the traversal compared a variable that is
+    not in the ordering (hand-built roots wrapped with `check_ordering=False`); when the orderings are equal and all
+    the variables are in it nothing is raised (`napply_spec`) -/
+theorem apply_error (op : Bool → Bool → Bool) (self b : OBDDv) (O : List String) (hO : self.ordering = some O) (e : Err)
+    (h : OBDDv.apply op self (.obdd b) = .error e) :
+    e = .runtimeError ∧
+      (OBDDv.ordEq self.ordering b.ordering = false ∨ ∃ v, (v ∈ self.root.vars ∨ v ∈ b.root.vars) ∧ v ∉ O) := by
+  obtain ⟨root, so⟩ := self
+  simp only at hO; subst hO
+  unfold OBDDv.apply at h
+  simp only at h ⊢
+  by_cases hq : OBDDv.ordEq (some O) b.ordering = true
+  · simp only [hq, Bool.not_true, Bool.false_eq_true, if_false] at h
+    cases hr : NBDD.apply op (some O) (root.size + b.root.size) root b.root with
+    | ok t => rw [hr] at h; cases h
+    | error x =>
+      rw [hr] at h; cases h
+      refine ⟨napply_error_class op O _ _ _ _ hr, Or.inr ?_⟩
+      by_contra hc
+      push Not at hc
+      obtain ⟨t, ht, -⟩ := napply_spec op O (root.size + b.root.size) root b.root
+        (fun v hv => hc v (Or.inl hv)) (fun v hv => hc v (Or.inr hv))
+      rw [hr] at ht; cases ht
+  · have hq' : OBDDv.ordEq (some O) b.ordering = false := by simpa using hq
+    simp only [hq', Bool.not_false, if_true, Except.error.injEq] at h
+    exact ⟨h.symm, Or.inl hq'⟩
 
-/-- a terminal keeps the kind of value it was first created with -/
-theorem create_isFloat (T : TermVals) (b f : Bool) (c : Bool) :
-    (T.create b f).isFloat c = if c = b ∧ (if b then T.t1 else T.t0) = none then f else T.isFloat c := by
-  cases b <;> cases c <;> cases h0 : T.t0 <;> cases h1 : T.t1 <;> simp [TermVals.create, TermVals.isFloat, h0, h1]
+/-- with equal orderings that contain every variable of the two roots nothing is raised — ordered or not -/
+theorem apply_no_error (op : Bool → Bool → Bool) (self b : OBDDv) (O : List String) (h1 : self.ordering = some O)
+    (h2 : b.ordering = some O) (v1 : ∀ v ∈ self.root.vars, v ∈ O) (v2 : ∀ v ∈ b.root.vars, v ∈ O) :
+    ∃ t, OBDDv.apply op self (.obdd b) = .ok ⟨t, some O⟩ := by
+  obtain ⟨t, e, -, -⟩ := napply_spec op O (self.root.size + b.root.size) self.root b.root v1 v2
+  exact ⟨t, by simp [OBDDv.apply, h1, h2, OBDDv.ordEq, eqv_refl, e]⟩
 
-/-- FINDING: once terminal `a` holds a float (`BDDNode(1.0)` / `BDDNode(0.0)` was the first request for it),
-    `^` raises `TypeError` as soon as the recursion reaches that terminal -/
-theorem xor_float_typeError (T : TermVals) (O : List String) (a b : Bool) (h : T.isFloat a = true ∨ T.isFloat b = true) :
-    OBDDv.apply (fun x y => x != y) T.xorBad ⟨.leaf a, some O⟩ (.obdd ⟨.leaf b, some O⟩) = .error .typeError := by
-  have : T.xorBad a b = true := by
-    rcases h with h | h <;> simp [TermVals.xorBad, h]
-  simp [OBDDv.apply, OBDDv.ordEq, eqv_refl, NBDD.size, NBDD.apply, this]
+/-! ### terminal nodes hold `bool`s: the operators never raise on them -/
+
+/-- on two terminal nodes `compute` applies the operator to the two `bool`s they hold and answers the terminal of the
+    result; nothing is raised, whatever values the terminals were first requested with (`BDDNode(1.0)` included) -/
+theorem napply_terminals (op : Bool → Bool → Bool) (O : Option (List String)) (n : Nat) (a b : Bool) :
+    NBDD.apply op O (n + 1) (.leaf a) (.leaf b) = .ok (.leaf (op a b)) := rfl
+
+/-- `^` on two constant OBDDs -/
+theorem xor_terminals (O : List String) (a b : Bool) :
+    OBDDv.apply (fun x y => x != y) ⟨.leaf a, some O⟩ (.obdd ⟨.leaf b, some O⟩) = .ok ⟨.leaf (a != b), some O⟩ := by
+  simp [OBDDv.apply, OBDDv.ordEq, eqv_refl, NBDD.size, NBDD.apply]
 
 end PMC.BDD
